@@ -11,6 +11,9 @@ structure St where
   builtinsDone : Bool := false
   nBuiltinCls : Nat := 0
   handlers : Nat := 0           -- host handlers handed out in this case (the harness has 768)
+  exts : List (Nat × Nat × List Decl) := []   -- `ClassDefExt::list`, head first: (pseudo id, class, responses)
+  nExt : Nat := 0               -- extensions constructed in this case
+  patched : List (Nat × Nat) := []   -- (class, number) slots written by `InitClassDef` in the last build
 
 def maxHandlers : Nat := 768
 def numNs : Nat := 3
@@ -55,7 +58,7 @@ def outcomeTok : Outcome → String
 
 /-- `row` / `drow` line: the transcribed table; every slot is also recomputed with the abstract
     specification (`Spec.nearest`, proved equal in `Props/C16.lean`) and flagged if it differed -/
-def rowLine (s : State) (c : Nat) (decide : Bool) : String := Id.run do
+def rowLine (s : State) (c : Nat) (decide : Bool) (patched : List (Nat × Nat) := []) : String := Id.run do
   let mut body := ""
   let mut filtered := 0
   for k in [0:s.es.numEvents] do
@@ -65,7 +68,7 @@ def rowLine (s : State) (c : Nat) (decide : Bool) : String := Id.run do
       | none => filtered := filtered + 1; continue
       | some d => if !nsAllowed s d.ns then filtered := filtered + 1; continue
     let r := getResponse s c n
-    if r != nearest s.reg (s.reg.clss.length + 1) c n then body := body ++ s!" {n}=SPEC-MISMATCH"
+    if !patched.contains (c, n) && r != nearest s.reg (s.reg.clss.length + 1) c n then body := body ++ s!" {n}=SPEC-MISMATCH"
     match r with
     | some (dc, di) => body := body ++ s!" {n}={dc}.{di}"
     | none => pure ()
@@ -86,6 +89,13 @@ def lastEv (s : State) : String :=
   match s.reg.evs.getLast? with
   | some e => s!"ev {s.reg.evs.length} {e.num} {if e.linked then 1 else 0}"
   | none => "bad-op"
+
+def newEv (st : St) (name k ns : String) : St × String :=
+  match kind? k, nat? ns with
+  | some kind, some n =>
+    if !nameOk name ∨ n > numNs then (st, "bad-op") else
+    applyOp st (.newEvent (toName name) kind n) lastEv
+  | _, _ => (st, "bad-op")
 
 def step (st : St) (t : List String) : St × String :=
   match t with
@@ -109,12 +119,22 @@ def step (st : St) (t : List String) : St × String :=
   | _ =>
   if !st.builtinsDone then (st, "bad-op") else
   match t with
-  | ["reset"] => ({ st with s := st.base, handlers := 0 }, "ok")
-  | ["event", name, k, ns] =>
-    match kind? k, nat? ns with
-    | some kind, some n =>
-      if !nameOk name ∨ n > numNs then (st, "bad-op") else
-      applyOp st (.newEvent (toName name) kind n) lastEv
+  | ["reset"] => ({ st with s := st.base, handlers := 0, exts := [], nExt := 0, patched := [] }, "ok")
+  | ["event", name, k, ns] => newEv st name k ns
+  -- `event … h|v|c|a`: where the harness keeps the object (heap; std::vector / con::Container that
+  -- reallocate = move construction; move assignment onto a moved-from shell): a move is the identity
+  -- on the registry, so the answer is that of `event …`
+  | ["event", name, k, ns, m] => if m = "h" ∨ m = "v" ∨ m = "c" ∨ m = "a" then newEv st name k ns else (st, "bad-op")
+  -- `ext <host class> <decl>…`: `new ClassDefExt(class, responses)`
+  | "ext" :: cls :: ds =>
+    match nat? cls, ds.mapM decl? with
+    | some c, some decls =>
+      let used := (decls.filter (·.has)).length
+      if c ≤ st.nBuiltinCls ∨ c > st.s.reg.clss.length ∨ st.handlers + used > maxHandlers ∨
+          !decls.all (fun d => d.ev ≠ 0 ∧ d.ev ≤ st.s.reg.evs.length) then (st, "bad-op") else
+      let k := st.nExt + 1
+      ({ st with exts := (1000000 + k, c, decls) :: st.exts, nExt := k, handlers := st.handlers + used,
+                 s := { st.s with built := false } }, s!"ext {k}")
     | _, _ => (st, "bad-op")
   | "class" :: parent :: ns :: ds =>
     match nat? parent, nat? ns, ds.mapM decl? with
@@ -124,7 +144,16 @@ def step (st : St) (t : List String) : St × String :=
       let (st', o) := applyOp st (.newClass p n decls) fun s' => s!"cls {s'.reg.clss.length}"
       (if o = "bad-op" then st' else { st' with handlers := st.handlers + used }, o)
     | _, _, _ => (st, "bad-op")
-  | ["init"] => applyOp st .initEvents fun s' => s!"init {s'.es.numEvents} {s'.es.names.length}"
+  | ["init"] =>
+    match Morfuse.Dispatch.step st.s .initEvents with
+    | none => (st, "bad-op")
+    | some s' =>
+      -- `BuildEventResponses` ends with `ClassDefExt::InitClassDef()`
+      let (s'', rest) := initClassDef s' st.exts
+      let patched := match st.exts with
+        | (_, c, ds) :: _ => (ds.filter (·.has)).map fun d => (c, evNum s'.reg d.ev)
+        | [] => []
+      ({ st with s := s'', exts := rest, patched := patched }, s!"init {s''.es.numEvents} {s''.es.names.length}")
   | "filter" :: mode :: nss =>
     match nat? mode, nss.mapM nat? with
     | some m, some l =>
@@ -136,7 +165,7 @@ def step (st : St) (t : List String) : St × String :=
       match nat? cls with
       | some c =>
         if !st.s.built ∨ c = 0 ∨ c > st.s.reg.clss.length then (st, "bad-op")
-        else (st, rowLine st.s c (op = "drow"))
+        else (st, rowLine st.s c (op = "drow") st.patched)
       | none => (st, "bad-op")
     else if op = "name" then
       if !st.s.built ∨ !nameOk cls then (st, "bad-op") else (st, nameLine st.s (toName cls))
